@@ -17,6 +17,7 @@ import ALV.Lemmas.C03PRun
 import ALV.Lemmas.C03PTotalRun
 import ALV.Lemmas.C03Counts
 import ALV.Lemmas.C03Call
+import ALV.Lemmas.C03X
 import ALV.Common.Audit
 
 namespace ALV.Props.C03
@@ -644,6 +645,101 @@ example : takeMode (.flt (1/2)) = .n 1 ∧ takeMode (.flt (5/2)) = .n 3 ∧ take
     ∧ roundHalfEven (1/2) = 0 ∧ roundHalfEven (3/2) = 2 ∧ roundHalfEven (5/2) = 2
     ∧ (roundHalfEven (-1/2)).toNat = 0 ∧ (roundHalfEven (-3/2)).toNat = 0 ∧ takeMode (.flt 0) = .n 0
     ∧ takeMode (.flt (-5/2)) = .n 0 := by decide +kernel
+
+/-! ### element functions and sources that raise in the middle of a stream (Model/C03X.lean)
+
+`xnext` has three outcomes (item / StopIteration / another exception); `map`, `filter`, `chain`, `tee` go
+on after an exception (so do `s.attr` / `s(...)`: a `map` object), `islice` (`limit`) and the generator of `skip`
+are finished by it;
+`take(n)` raises it and the Stream goes on behind the raising position.  The list model becomes a list
+of *events* (`Ev`: an item or the exception raised at that position). -/
+
+/-- **C03.11a (`next` with exceptions)** on every iterator built from raising sources, `map` / `filter` /
+`chain` / `islice` / `skipper` wrappers (no tee leaves): whenever `next` returns, it delivers the
+head event of the denotation — the item, the exception, or StopIteration for the empty one — touches no
+tee buffer and leaves an iterator denoting the tail.  In particular after an exception the following
+`next` goes on with the next event of the (wrapper-specific: `mapE`, `filterE`, `limE`, `skipE`)
+event list. -/
+theorem raise_next {f : Nat} {h h' : XHeap α} {it it' : XIt α} {r : Res α} (ht : it.teeFree = true)
+    (hx : xnext f h it = some (h', it', r)) :
+    h' = h ∧ it'.teeFree = true ∧
+      (match r with
+        | .stop => xden it = [] ∧ xden it' = []
+        | .item v => xden it = .ok v :: xden it'
+        | .raise e => xden it = .error e :: xden it') := by
+  obtain ⟨a, b, c⟩ := xnext_sound f h it h' it' r ht hx
+  refine ⟨a, b, ?_⟩
+  cases r <;> exact c
+
+/-- **C03.11b (`take` with exceptions)** `take(n)` / `take()` / `take(inf)`: whenever it returns, it returns
+`specTakeX` of the events: the first `n` items when none of the first `n` events raises, otherwise the
+first exception — and then the Stream goes on right behind the raising position (the items pulled
+before it are lost). -/
+theorem raise_take {f : Nat} {h : XHeap α} {it : XIt α} {c : Cnt} {h' : XHeap α} {it' : XIt α} {o : Obs α}
+    (ht : it.teeFree = true) (hx : xtakeIt f h it c = some (h', it', o)) :
+    h' = h ∧ it'.teeFree = true ∧ specTakeX (xden it) c = (xden it', o) := xtakeIt_sound ht hx
+
+/-- **C03.11c (histories with exceptions, no copies)** for every history of new / take / next / list() /
+skip / limit / append / map / filter / `s.attr` over sources and element functions that raise anywhere,
+of any length: whenever the model terminates at every step, the whole list of observations is the one
+of the event-list model. -/
+theorem raise_history (ops : List (XOp α)) (f : Nat) (hops : ∀ op, op ∈ ops → op.teeFree = true)
+    (hterm : ∀ o, o ∈ xrun f (XSt.empty : XSt α) ops → o ≠ none) :
+    xrun f (XSt.empty : XSt α) ops = xspecRun [] ops :=
+  xrun_sound f ops XSt.empty (fun _ h => by simp [XSt.empty] at h) hops hterm
+
+/-- **C03.11d (nothing raises: the list model)** on sequences without raising positions and with element
+functions that never raise, the event functions are the list functions of the list model: `map`,
+`filter`, `take` / `limit`, `drop` / `skip`; `take(n)` returns the first `n` items and leaves the rest. -/
+theorem raise_free_is_list_model (f : α → α) (p : α → Bool) (n : Nat) (xs : List α) :
+    mapE (fun v => .ok (f v)) (okList xs) = okList (xs.map f) ∧
+    filterE (fun v => .ok (p v)) (okList xs) = okList (xs.filter p) ∧
+    limE n (okList xs) = okList (xs.take n) ∧ skipE n (okList xs) = okList (xs.drop n) ∧
+    takeE n (okList xs) = (.ok (xs.take n), okList (xs.drop n)) :=
+  ⟨mapE_ok f xs, filterE_ok p xs, limE_ok n xs, skipE_ok n xs, takeE_ok n xs⟩
+
+/-- **C03.11e (tee does not store an exception)** an exception coming out of the source of a tee is
+handed to the copy that asked; buffer and position of that copy are unchanged, only the source has moved
+on — so every other copy (and the Stream itself after a `peek`) goes straight to the next item. -/
+theorem raise_tee_once {f : Nat} {h h' : XHeap α} {k : Nat} {parent p' : XIt α} {buf : List α} {e : String}
+    (hk : h[k]? = some ⟨parent, buf⟩) (hp : xnext f h parent = some (h', p', .raise e)) :
+    xnext (f + 1) h (.tee k buf.length) = some (h'.set k ⟨p', buf⟩, .tee k buf.length, .raise e) :=
+  tee_raise_not_stored hk hp
+
+-- PENDING: the history-level statement with copies.  Because `tee` delivers an exception to one copy
+-- only, copies are not independent event lists; the specification needs a shared set of exceptions
+-- already delivered (each raising position of a source fires once).  `xrun` (model) is tied to the real
+-- code on such histories; the refinement to that specification is not proved.
+def raise_history_with_copies_PENDING : Prop :=
+  ∀ (ops : List (XOp Int)) (f : Nat), (∀ o, o ∈ xrun f (XSt.empty : XSt Int) ops → o ≠ none) →
+    ∃ spec : List (XOp Int) → List (Option (Obs Int)), xrun f (XSt.empty : XSt Int) ops = spec ops
+
+/-- non-vacuity: `map` goes on after the exception, `take(5)` raises and the Stream goes on behind the
+    raising position; `limit` and `skip` are finished by it; `s.attr` goes on -/
+example :
+    let boom : Int → Ev Int := fun x => if x = 3 then .error "ValueError" else .ok (x * 10)
+    let ops : List (XOp Int) :=
+      [.new [.ok 1, .ok 2, .ok 3, .ok 4, .ok 5], .map 0 boom, .take 0 (.int 5), .drain 0,
+       .new [.ok 1, .ok 2, .ok 3, .ok 4, .ok 5], .map 1 boom, .limit 1 4, .take 1 (.int 9), .drain 1,
+       .new [.ok 1, .error "KeyError", .ok 3, .ok 4], .skip 2 1, .next 2, .next 2,
+       .new [.ok 1, .ok 2, .ok 3, .ok 4], .map 3 boom, .attr 3 (fun x => .ok x), .take 4 (.int 2), .next 4, .next 4]
+    let obs : List (Option (Obs Int)) :=
+      [some (.new 0), some .unit, some (.err "ValueError"), some (.items [40, 50]),
+       some (.new 1), some .unit, some .unit, some (.err "ValueError"), some (.items []),
+       some (.new 2), some .unit, some (.err "KeyError"), some (.err "StopIteration"),
+       some (.new 3), some .unit, some (.new 4), some (.items [10, 20]), some (.err "ValueError"),
+       some (.item 40)]
+    xrun 9 (XSt.empty : XSt Int) ops = obs ∧ xspecRun [] ops = obs ∧ (∀ op, op ∈ ops → op.teeFree = true) := by
+  refine ⟨by decide +kernel, by decide +kernel, by simp [XOp.teeFree]⟩
+/-- `peek` that raises: the Stream itself loses nothing but the raising position; a copy made before sees
+    neither the exception (delivered once) nor a gap in the items -/
+example :
+    let boom : Int → Ev Int := fun x => if x = 3 then .error "ValueError" else .ok (x * 10)
+    xrun 9 (XSt.empty : XSt Int)
+      [.new [.ok 1, .ok 2, .ok 3, .ok 4, .ok 5], .map 0 boom, .copy 0, .peek 0 (.int 5), .take 0 (.int 2), .next 0,
+       .drain 1]
+    = [some (.new 0), some .unit, some (.new 1), some (.err "ValueError"), some (.items [10, 20]), some (.item 40),
+       some (.items [10, 20, 40, 50])] := by decide +kernel
 
 end ALV.Props.C03
 
